@@ -196,12 +196,17 @@ impl<T> Future for SendFuture<'_, T> {
                 Poll::Pending => {
                     if !this.sig.will_wake(cx.waker()) {
                         // Waker is changed and we need to update waker in the waiting list
-                        if acquire_internal(this.internal).send_signal_exists(&this.sig) {
+                        let internal = acquire_internal(this.internal);
+                        if internal.send_signal_exists(&this.sig) {
                             // signal is not shared with other thread yet so it's safe to
-                            // update waker locally
-                            // this.sig.register_waker(cx.waker());
+                            // update waker locally; the channel lock is held until the
+                            // new waker is stored, so no receiver can take the signal
+                            // and read the waker meanwhile
+                            this.sig.register_waker(cx.waker());
+                            drop(internal);
                             Poll::Pending
                         } else {
+                            drop(internal);
                             // signal is already shared, and data will be available shortly, so wait
                             // synchronously and return the result note:
                             // it's not possible safely to update waker after the signal is shared,
